@@ -33,8 +33,8 @@ type coreRes struct {
 	Content int    `json:"content"`
 }
 type coreCase struct {
-	Acts   []coreAct          `json:"acts"`
-	ResultL []coreRes `json:"result"`
+	Acts    []coreAct          `json:"acts"`
+	ResultL []coreRes          `json:"result"`
 	Result  map[string]coreRes `json:"-"`
 }
 
